@@ -14,6 +14,7 @@ from ..mir import deep_strip, tstr, strip_generics, canon, subterms, is_call
 from .. import effects, fixtures
 
 CONFIGS = ("FULL", "XEN")
+THOROUGH_CONFIGS = ("MIN",)
 TRUSTED = [
     "tabled-infallible steps between layers: Address::raw_value, GuestMemoryRegion::as_volatile_slice().unwrap() (C07 table, C01 R1.3)",
     "rustc nightly MIR construction and Instance resolution",
@@ -249,6 +250,11 @@ def run(ctx, progs):
         ctx.floor("R18.1.impls", n, 10 if cfg != "MIN" else 4)
         n = rule_exact_loops(ctx.ob, prog)
         ctx.floor("R18.2.loops", n, 2)
+        # R18.4: several zero-count routes call mark_dirty(_, 0) unconditionally (stream forms, copies of nothing):
+        # the bitmap must treat len == 0 as a no-op before computing any page (form rule shared with C09 R9.3)
+        if "bitmap::backend::atomic_bitmap::AtomicBitmap" in prog.adts:
+            from . import c09
+            c09.rule_range_form(ctx.ob, prog)
         n, z = rule_zst(ctx.ob, prog)
         ctx.floor("R18.3.sites", n, 3)
         ctx.floor("R18.3.zst_types", z, 12)
